@@ -1193,7 +1193,13 @@ func runLoaderProp(prop string, judge string) {
 			lCacheTransparency(cases, func(i int) *LObs {
 				o := meta.Cases[i].(map[string]any)["go"].(LObs)
 				return &o
-			}, meta, 60)
+			}, meta, 60, false)
+		}
+		if prop == "C20" && replay == "" {
+			lCacheTransparency(cases, func(i int) *LObs {
+				o := meta.Cases[i].(map[string]any)["go"].(LObs)
+				return &o
+			}, meta, 20, true)
 		}
 		meta.Files, meta.Offsets = writeCasesInterned(outDir, "cases", "From KV Require Import Model.Base Model.Loader Exec.LoaderExec.", "lcase", judge, terms, meta.Shard)
 		meta.IndexMap = idx
@@ -1453,6 +1459,21 @@ func c20Directed() []LCase {
 		"#/components/responses/R/headers/H", "#/components/requestBodies/B/content/application~1json/schema", "#/components/headers/H/schema", "#/servers/0", "#/tags/0", "#/externalDocs",
 		"#/security/0", "#/components/securitySchemes/S", "#/components/links/L", "#/components/callbacks/C", "#/components/examples/E"} {
 		mk(sparse(fr))
+	}
+	// a default / example that document validation checks against a schema of every unusual shape: an empty
+	// type list, a type list of several, no type, contradictory bounds, an unknown format
+	for _, sch := range []string{`{"type":[]}`, `{"type":[],"nullable":true}`, `{"type":["string","integer"]}`, `{"type":["null"]}`, `{}`, `{"type":"string","minLength":5,"maxLength":1}`,
+		`{"type":"integer","format":"nope"}`, `{"type":"array","items":{"type":[]}}`, `{"type":"object","properties":{"p":{"type":[]}},"additionalProperties":{"type":[]}}`,
+		`{"oneOf":[{"type":[]},{"type":[]}]}`, `{"not":{"type":[]}}`, `{"enum":[]}`, `{"type":"string","pattern":""}`} {
+		for _, val := range []string{`1`, `"x"`, `null`, `[1,"x"]`, `{"p":1,"q":"x"}`, `true`} {
+			withVal := sch[:len(sch)-1]
+			if withVal != "{" {
+				withVal += ","
+			}
+			mk(`{"openapi":"3.0.3","info":{"title":"t","version":"1"},"paths":{"/a":{"get":{"parameters":[{"name":"q","in":"query","schema":` + sch + `,"example":` + val + `}],` +
+				`"responses":{"200":{"description":"d","content":{"application/json":{"schema":` + sch + `,"example":` + val + `}}}}}}},` +
+				`"components":{"schemas":{"D":` + withVal + `"default":` + val + `},"E":` + withVal + `"example":` + val + `}}}}`)
+		}
 	}
 	// chains of diamonds: every level reaches the next one through two edges - validating, serialising and
 	// internalising must stay linear in the number of schemas (65 here), not in the number of paths (2^64)
